@@ -267,7 +267,7 @@ func runProp(t *testing.T, id string, scenarios func(batch int) []Scenario, rule
 	run.Set("preemption_bound_claimed", claimed)
 	batches := []int{1, 3}
 	nslots := len(batches) * len(scenarios(1))
-	slot := vk.Pick(run, 6*time.Minute, 60*time.Minute) / time.Duration(nslots)
+	slot := vk.Pick(run, 6*time.Minute, 30*time.Minute) / time.Duration(nslots)
 	var total int64
 	per := map[string]any{}
 	for _, b := range batches {
